@@ -153,6 +153,10 @@ def analyze_entry(built, name, boxes=None, rnd=None, refine_depth=2, want_paths=
     an = Analyzer(mod, mod.functions[name])
     for k_, v_ in (opts or {}).items():
         setattr(an, k_, v_)
+    if getattr(an, "summaries", False) and an.loop_heads:
+        # loops verified as integer square roots are replaced by their summary (fxai.isqrt); all others are unrolled as usual
+        from . import isqrt as _isq
+        _isq.prepare(an)
     res = an.run(P.init_state(an.fn, boxes))
     out_alarms = []
     stats = dict(res.stats)
